@@ -20,6 +20,7 @@ package client
 import (
 	"context"
 
+	"seata.apache.org/seata-go/pkg/protocol/branch"
 	"seata.apache.org/seata-go/pkg/protocol/message"
 	"seata.apache.org/seata-go/pkg/util/log"
 
@@ -50,20 +51,22 @@ func (f *rmBranchRollbackProcessor) Process(ctx context.Context, rpcMessage mess
 		ApplicationData: applicationData,
 	}
 	status, err := rm.GetRmCacheInstance().GetResourceManager(request.BranchType).BranchRollback(ctx, branchResource)
-	if err != nil {
-		log.Errorf("branch rollback error: %s", err.Error())
-		return err
-	}
-	log.Infof("branch rollback success: xid %s, branchID %d, resourceID %s, applicationData %s", xid, branchID, resourceID, applicationData)
-
 	var (
 		resultCode message.ResultCode
 		errMsg     string
 	)
+	processErr := err
 	if err != nil {
+		// the failure is reported to the tc server (which retries) rather than
+		// left to its request timeout
+		log.Errorf("branch rollback error: %s", err.Error())
 		resultCode = message.ResultCodeFailed
 		errMsg = err.Error()
+		if status != branch.BranchStatusPhasetwoRollbackFailedUnretryable {
+			status = branch.BranchStatusPhasetwoRollbackFailedRetryable
+		}
 	} else {
+		log.Infof("branch rollback success: xid %s, branchID %d, resourceID %s, applicationData %s", xid, branchID, resourceID, applicationData)
 		resultCode = message.ResultCodeSuccess
 	}
 	// reply commit response to tc server
@@ -86,5 +89,5 @@ func (f *rmBranchRollbackProcessor) Process(ctx context.Context, rpcMessage mess
 		return err
 	}
 	log.Infof("send branch rollback response success: xid %s, branchID %d, resourceID %s, applicationData %s", xid, branchID, resourceID, applicationData)
-	return nil
+	return processErr
 }
